@@ -240,6 +240,44 @@ fn stream_history(fields: &[&str]) -> String {
     })
 }
 
+/// json: `<text hex>` → `ok <typed value>\ttext=<hex of to_string>\tid=<same|DIFF>\tvalue=<same|DIFF|n/a>` | `E`
+/// id: search "@" on the parsed value; value: conversion to and from serde_json::Value is lossless
+fn stream_json(fields: &[&str]) -> String {
+    let text = unhex_str(fields[0]);
+    guarded(|| match Variable::from_json(&text) {
+        Err(_) => "E".to_string(),
+        Ok(v) => {
+            let rc = Rcvar::new(v);
+            let enc = value_str(&rc);
+            let printed = rc.to_string();
+            let id = match jmespath::compile("@").and_then(|e| e.search(rc.clone())) {
+                Ok(r) => {
+                    if value_str(&r) == enc && r.to_string() == printed { "same" } else { "DIFF" }
+                }
+                Err(_) => "DIFF",
+            };
+            // Variable -> Value -> Variable, and text -> Value -> Variable
+            use std::convert::TryFrom;
+            let value = match serde_json::to_value(&*rc) {
+                Err(_) => "DIFF-to_value".to_string(),
+                Ok(val) => match Variable::try_from(&val) {
+                    Err(_) => "DIFF-try_from".to_string(),
+                    Ok(back) => {
+                        let direct = serde_json::from_str::<serde_json::Value>(&text).ok().and_then(|v| Variable::try_from(v).ok());
+                        let d_ok = direct.map(|d| value_str(&d) == enc).unwrap_or(false);
+                        if value_str(&back) == enc && d_ok { "same".to_string() } else { "DIFF".to_string() }
+                    }
+                },
+            };
+            let reparsed = match Variable::from_json(&printed) {
+                Ok(r) => if value_str(&r) == enc { "same".to_string() } else { format!("DIFF:{}", value_str(&r)) },
+                Err(_) => "ERR".to_string(),
+            };
+            format!("ok {}\ttext={}\tid={}\tvalue={}\treparse={}", enc, hex(printed.as_bytes()), id, value, reparsed)
+        }
+    })
+}
+
 fn main() {
     std::panic::set_hook(Box::new(|_| {}));
     let stream = std::env::args().nth(1).expect("usage: vharness <stream>");
@@ -255,6 +293,7 @@ fn main() {
             "eval" => stream_eval(&fields),
             "errfmt" => stream_errfmt(&fields),
             "registry" => stream_registry(&fields),
+            "json" => stream_json(&fields),
             "history" => stream_history(&fields),
             s => panic!("unknown stream {}", s),
         };
